@@ -518,8 +518,12 @@ class FunctionStub(Stub):
         s += render_signature(self.signature, 120 - len(s), prefix) + ": ..."
         # Yes, this is a horrible hack, but inspect.py gives us no way to
         # specify the function that should be used to format annotations.
-        for module in self.strip_modules:
-            s = s.replace(module + ".", "")
+        # A module prefix is removed only where it starts a dotted name (not in the
+        # middle of another module or class path), longest module first, in one pass.
+        modules = sorted(set(self.strip_modules), key=len, reverse=True)
+        if modules:
+            pattern = r"(?<![\w.])(?:%s)\." % "|".join(re.escape(m) for m in modules)
+            s = re.sub(pattern, "", s)
         if self.kind == FunctionKind.CLASS:
             s = prefix + "@classmethod\n" + s
         elif self.kind == FunctionKind.STATIC:
